@@ -242,10 +242,16 @@ public:
                 }
                 case subscribtion_type::skip_if_behind: {
                     std::size_t relpos = _pos - l._pos - 1;
-                    if (relpos >= _q.size()) relpos = _q.size()-1;
+                    if (relpos >= _q.size()) {
+                        relpos = _q.size()-1;
+                        //continue from the value which is being returned
+                        l._pos = _pos - relpos - 1;
+                    }
                     return _q[relpos];
                 }
                 case subscribtion_type::skip_to_recent: {
+                    //continue from the value which is being returned
+                    l._pos = _pos - 1;
                     return _q[0];
                 }
             }
